@@ -495,6 +495,14 @@ func c10R5(c *Ctx) {
 					break
 				}
 				fa, ok := x.Addr.(*ssa.FieldAddr)
+				if ok && fn.Name() != "init" {
+					if u, isLoad := fa.X.(*ssa.UnOp); isLoad && u.Op == token.MUL {
+						if gl, isGlobal := u.X.(*ssa.Global); isGlobal && c.inRepoPkg(gl) {
+							what, target = "stores into field "+fieldAddrVar(fa).Name()+" of the object the package-level variable "+gl.Name()+" points to", gl
+							break
+						}
+					}
+				}
 				if !ok || !isLL(fa.X) {
 					return
 				}
@@ -509,6 +517,10 @@ func c10R5(c *Ctx) {
 						break
 					}
 				}
+				if gl := c.mapOfGlobal(x.Map); gl != nil {
+					what, target = "updates a map that belongs to the package-level variable "+gl.Name()+" (a struct copy shares its maps)", gl
+					break
+				}
 				if !fromLL(x.Map) {
 					return
 				}
@@ -518,7 +530,35 @@ func c10R5(c *Ctx) {
 				what, target = "updates the map in field "+loadedField(x.Map).Name(), x.Map
 			case *ssa.Call:
 				cc := x.Common()
+				if (isBuiltinCall(x, "clear") || isBuiltinCall(x, "delete")) && len(cc.Args) > 0 {
+					if _, isMap := cc.Args[0].Type().Underlying().(*types.Map); isMap {
+						if gl := c.mapOfGlobal(cc.Args[0]); gl != nil {
+							what, target = "removes entries from a map that belongs to the package-level variable "+gl.Name()+" (a struct copy shares its maps)", gl
+							break
+						}
+					}
+					return
+				}
 				callee := cc.StaticCallee()
+				// a method that writes its receiver, called on the object a package-level variable points to
+				if callee != nil && callee.Signature.Recv() != nil && len(cc.Args) > 0 && len(callee.Blocks) > 0 && fn.Name() != "init" {
+					if u, isLoad := cc.Args[0].(*ssa.UnOp); isLoad && u.Op == token.MUL {
+						if gl, isGlobal := u.X.(*ssa.Global); isGlobal && c.inRepoPkg(gl) {
+							writes := false
+							eachInstr(callee, func(r2 instrRef) {
+								if st, ok := r2.I.(*ssa.Store); ok {
+									if fa, ok := st.Addr.(*ssa.FieldAddr); ok && fa.X == ssa.Value(callee.Params[0]) {
+										writes = true
+									}
+								}
+							})
+							if writes {
+								what, target = "calls "+callee.Name()+", which writes its receiver, on the object the package-level variable "+gl.Name()+" points to", gl
+								break
+							}
+						}
+					}
+				}
 				if callee == nil || callee.Signature.Recv() == nil || !mutating[callee.Name()] {
 					return
 				}
@@ -551,6 +591,52 @@ func c10R5(c *Ctx) {
 	if n == 0 {
 		c.ok(rule, "stateless-prepare", "-", fmt.Sprintf("no write to an engine-lifetime object in %d parse/prepare functions", len(scope)), true)
 	}
+}
+
+// mapOfGlobal: the map value is (a field of) what a package-level variable of the repository holds — read directly or
+// through a local copy of the variable's struct value, which shares the maps.
+func (c *Ctx) mapOfGlobal(m ssa.Value) *ssa.Global {
+	// the value of a global, or of a local that holds a copy of a global's (struct) value
+	var holder func(v ssa.Value, d int) *ssa.Global
+	holder = func(v ssa.Value, d int) *ssa.Global {
+		if d > 6 || v == nil {
+			return nil
+		}
+		switch x := v.(type) {
+		case *ssa.Global:
+			if c.inRepoPkg(x) {
+				return x
+			}
+		case *ssa.UnOp:
+			if x.Op == token.MUL {
+				return holder(x.X, d+1)
+			}
+		case *ssa.FieldAddr:
+			return holder(x.X, d+1)
+		case *ssa.Field:
+			return holder(x.X, d+1)
+		case *ssa.Alloc:
+			// a local struct variable: what was stored into it as a whole
+			if x.Referrers() == nil {
+				return nil
+			}
+			for _, ref := range *x.Referrers() {
+				if st, ok := ref.(*ssa.Store); ok && st.Addr == ssa.Value(x) {
+					if g := holder(st.Val, d+1); g != nil {
+						return g
+					}
+				}
+			}
+		case *ssa.Phi:
+			for _, e := range x.Edges {
+				if g := holder(e, d+1); g != nil {
+					return g
+				}
+			}
+		}
+		return nil
+	}
+	return holder(m, 0)
 }
 
 // C10.R6 the YAML conversion never drops tags.
